@@ -270,10 +270,12 @@ def histStep (st : HState) (op : String) (a : List String) : HState × String :=
     | none => (st, "err:notFound")
     | some o => (st, showManifest o.inv o.files)
   | "ls", [g] =>
-    let ids := st.repo.main.filter (fun e => g == "-" || globMatchU false (arg g) e.1)
+    if g != "-" && (parseGlob (toByteChars (arg g))).isNone then (st, "err:wrapped") else
+    let ids := st.repo.main.filter (fun e => g == "-" || globMatchX false (arg g) e.1 == some true)
     (st, "ok " ++ " ".intercalate (sortStr (ids.map (fun e => encodeArg e.1 ++ ":v" ++ toString e.2.inv.head.number))))
   | "lsstaged", [g] =>
-    let ids := st.repo.staged.filter (fun e => g == "-" || globMatchU false (arg g) e.1)
+    if g != "-" && (parseGlob (toByteChars (arg g))).isNone then (st, "err:wrapped") else
+    let ids := st.repo.staged.filter (fun e => g == "-" || globMatchX false (arg g) e.1 == some true)
     (st, "ok " ++ " ".intercalate (sortStr (ids.map (fun e => encodeArg e.1 ++ ":v" ++ toString e.2.inv.head.number))))
   | "ids", _ =>
     (st, "ok main=" ++ ",".intercalate (sortStr (st.repo.main.map (fun e => encodeArg e.1)))
